@@ -384,6 +384,47 @@ func c15(c *Ctx) {
 	c.Extra["exhaustive_order_sessions"] = nperm
 	c.Exhaustive = true
 
+	// (1b) file-name lengths across the limits of the chunk header's name field, every dialect: the 50-byte NUL
+	// padded field (1, 2, 49, 50) and the length-prefixed HLJ field (1 .. 255, dense around the uint8 boundary:
+	// header length 4+1+n+4+4 reaches 256 at n = 243); the same names travel in 0x1210 / 0x1211 / 0x1212 / 0x9212
+	nameLens := func(d int) []int {
+		if d != AttHLJ {
+			return []int{1, 2, 3, 25, 48, 49, 50}
+		}
+		l := []int{1, 2, 3, 49, 50, 51, 64, 127, 128, 129, 200, 230}
+		for n := 238; n <= 255; n++ {
+			l = append(l, n)
+		}
+		return l
+	}
+	nlen := 0
+	for _, d := range AttDialects {
+		for _, n := range nameLens(d) {
+			if c.Quick() && d != AttHLJ && n > 3 && n < 48 {
+				continue
+			}
+			s := newSession(2, []int{9, 3}, []int{4, 64})
+			s.d = d
+			nm := make([]byte, n)
+			for i := range nm {
+				nm[i] = byte('a' + (i+n)%26)
+			}
+			if n > 8 {
+				copy(nm[2:], []byte{0x30, 0x31, 0x63, 0x64}) // the marker inside the name
+			}
+			s.files[0].name = nm
+			s.files[1].name = []byte{'z'}
+			if n == 1 {
+				s.files[1].name = []byte("zz")
+			}
+			s.units = append(s.units, ctrl(s, 0x1210, 0), ctrl(s, 0x1211, 0), chunk(s, 0, 2), chunk(s, 0, 0), ctrl(s, 0x1212, 0),
+				chunk(s, 1, 0), chunk(s, 0, 1), chunk(s, 0, 1), ctrl(s, 0x1212, 0), ctrl(s, 0x1212, 1))
+			play(s, "name-length", false)
+			nlen++
+		}
+	}
+	c.Extra["name_length_sessions"] = nlen
+
 	// (2) random sessions
 	nrand := 60
 	if !c.Quick() {
